@@ -5,7 +5,8 @@ import Mathlib.Tactic.NormNum
 import Mathlib.Tactic.GCongr
 import Mathlib.Algebra.Order.AbsoluteValue.Basic
 
-/-! Exact-arithmetic amplitude bound for `simplex_noise_1d` (dasp_signal/src/lib.rs:2023-2082). -/
+/-! Exact-arithmetic amplitude bound for `simplex_noise_1d` (dasp_signal/src/lib.rs:2023-2082);
+    moved from the round-0 prototype `Proto/Simplex.lean`.  Used by `Props/C17.lean`. -/
 namespace Dasp.Simplex
 
 /-- contribution profile of one corner at distance x: (1 - x²)⁴ · x -/
@@ -50,5 +51,5 @@ theorem simplex_bound (x0 g0 g1 : ℚ) (h0 : 0 ≤ x0) (h1 : x0 < 1) (hg0 : |g0|
   rw [abs_mul, abs_of_nonneg (by norm_num : (0:ℚ) ≤ 395/1000)]
   nlinarith
 
-#print axioms simplex_bound
+
 end Dasp.Simplex
